@@ -627,7 +627,7 @@ Fixpoint chk_ops (w : world) (c : icase) (ops : list cop) (s : state) : bool :=
             list_nat_eqb (map (fun k => nexec s1 k - nexec s k) (seq 0 (c_n c))) execs) &&
       match ka with
       | Some l => list_nat_eqb (done_keys w s1) l && chk_ops w c rest s1
-      | None => canc
+      | None => if canc then true else chk_ops w c rest s1   (* Keys() not observable: an Evict followed at once *)
       end
   | CPar runs res ka :: rest =>
     let s0 := fold_left start_run runs s in
